@@ -232,7 +232,10 @@ func init() {
 		reg(n, func(e *Exec, fn *ssa.Function, a []Value) Value {
 			p := a[0].(Ptr)
 			if e.lockState[p.Obj] != 0 {
-				e.end("limit", "lock acquired twice (self-deadlock) at "+e.where())
+				// held by another goroutine that is blocked: wait for it; nobody left to release it = deadlock
+				if !e.block(func() bool { return e.lockState[p.Obj] == 0 }, false) {
+					e.end("limit", "lock acquired twice (self-deadlock) at "+e.where())
+				}
 			}
 			e.lockState[p.Obj] = -1
 			e.lockEvents = append(e.lockEvents, "lock")
@@ -265,9 +268,35 @@ func init() {
 		e.lockState[p.Obj]--
 		return nil
 	})
-	for _, n := range []string{"(*sync.WaitGroup).Add", "(*sync.WaitGroup).Done", "(*sync.WaitGroup).Wait"} {
-		reg(n, func(e *Exec, fn *ssa.Function, a []Value) Value { return nil })
-	}
+	// sync.WaitGroup: a counter per object; Wait blocks until it is zero
+	wgKey := func(v Value) string { p := v.(Ptr); return fmt.Sprintf("%p+%d", p.Obj, p.Off) }
+	reg("(*sync.WaitGroup).Add", func(e *Exec, fn *ssa.Function, a []Value) Value {
+		if e.waitGroups == nil {
+			e.waitGroups = map[string]int{}
+		}
+		e.waitGroups[wgKey(a[0])] += int(e.mustConcreteInt(a[1], "WaitGroup.Add delta"))
+		if e.waitGroups[wgKey(a[0])] < 0 {
+			e.definitePanic("sync", "negative WaitGroup counter")
+		}
+		return nil
+	})
+	reg("(*sync.WaitGroup).Done", func(e *Exec, fn *ssa.Function, a []Value) Value {
+		if e.waitGroups == nil {
+			e.waitGroups = map[string]int{}
+		}
+		e.waitGroups[wgKey(a[0])]--
+		if e.waitGroups[wgKey(a[0])] < 0 {
+			e.definitePanic("sync", "negative WaitGroup counter")
+		}
+		return nil
+	})
+	reg("(*sync.WaitGroup).Wait", func(e *Exec, fn *ssa.Function, a []Value) Value {
+		k := wgKey(a[0])
+		if !e.block(func() bool { return e.waitGroups[k] <= 0 }, false) {
+			e.end("limit", "WaitGroup.Wait blocks forever (no goroutine left that could call Done) at "+e.where())
+		}
+		return nil
+	})
 
 	// ---- net.IP.Equal, exactly as the standard library defines it
 	reg("(net.IP).Equal", func(e *Exec, fn *ssa.Function, a []Value) Value {
